@@ -26,7 +26,7 @@ from __future__ import annotations
 import ast
 
 from ..repo import AnalysisError, own_nodes
-from .common import DISPATCHER, OBSERVER, is_empty_list, is_notify, only_called_from, path_atoms, resolve_root
+from .common import DISPATCHER, OBSERVER, falsy_object_tests, is_empty_list, is_notify, only_called_from, path_atoms, resolve_root
 from .c09 import state_write
 
 MANIFEST = {
@@ -436,6 +436,23 @@ def run(ctx):
             return v is not None and is_empty_list(ctx.norm.xexpr(w.fi, v))
         return ".clear()" in (w.text or "")
 
+    # who may write the record: update appends the notified operation, reset
+    # and the constructor start an empty list - nothing else (in particular no
+    # back-filling from the schedule, whose order is not the dispatch order)
+    for m in hist.methods.values():
+        if m in (hu, hr) or isinstance(m.node, ast.Lambda):
+            continue
+        for w in lc_h.attr_writes(m, hist):
+            if w.attr != "history" or w.fi in (hu, hr):
+                continue
+            if m.name == "__init__" and w.kind == "rebind" and is_empty_list(ctx.norm.xexpr(w.fi, getattr(w.event.node, "value", None) or ast.Constant(value=None))):
+                continue
+            chk.violation(
+                "R10.d", m, w.event.node,
+                f"HistoryObserver.{m.name} writes the history ({w.text}) outside update/reset: entries that were not "
+                "notified dispatches (or not in notification order) enter the record",
+                loc=w.loc,
+            )
     if not ws:
         chk.violation("R10.d", hr, None, "HistoryObserver.reset never touches the history: the record of the previous episode stays")
     elif any(_empties(w) for w in ws):
@@ -493,6 +510,11 @@ def _resolve_expr(ev, expr):
 def _create_or_get(ctx, disp):
     chk = ctx.chk
     fi = ctx.repo.need_method(disp, "create_or_get_observer")
+    n_before = len(chk.findings)
+    nt = falsy_object_tests(ctx, "R10.e", lambda f: f.module is disp.module)
+    chk.analysed["truthiness_tests_in_dispatcher_module"] = nt
+    if len(chk.findings) > n_before:
+        return
     ps = fi.params  # self, observer, condition
     if len(ps) < 3:
         raise AnalysisError("create_or_get_observer signature changed")
